@@ -80,6 +80,8 @@ inductive Probe where
   | typeOf           -- type(obj) (and issubclass on that type): never dispatches to the object
   | iterExact        -- iterate an exact list / set / tuple
   | itemsExact       -- len / keys / values / items of an exact dict / defaultdict
+  | hashClass        -- `Type[obj]` for a class object goes through typing's subscription cache, which hashes `obj`:
+                     -- `type.__hash__` for an ordinary class, a user-defined `__hash__` if the metaclass has one
   deriving DecidableEq, Repr
 
 def isExact : Val → Bool
@@ -94,6 +96,7 @@ def probes : Val → List (Val × Probe)
   | .tuple vs => (.tuple vs, .typeOf) :: (.tuple vs, .iterExact) :: probesL vs
   | .dict kvs => (.dict kvs, .typeOf) :: (.dict kvs, .itemsExact) :: probesKV kvs
   | .ddict kvs => (.ddict kvs, .typeOf) :: (.ddict kvs, .itemsExact) :: probesKV kvs
+  | .classObj c => [(.classObj c, .typeOf), (.classObj c, .hashClass)]
   | v => [(v, .typeOf)]
 def probesL : List Val → List (Val × Probe)
   | [] => []
